@@ -259,7 +259,25 @@ def main(tier, seed):
                 elif o["ok"] != (not i.startswith("!")):
                     o["others"].append(i)
             run.count(("process", hs), n=len(ids))
-        run.set(other_processes=len(hashseeds), pythonhashseeds=[os.environ.get("PYTHONHASHSEED")] + [str(h) for h in hashseeds])
+        # hash-seed probe: string-hash order (sets, dict views) differs between processes with some probability only, so the
+        # unmutated default-route object of every base is also rebuilt under several more hash seeds (in parallel)
+        probe_idx = [i for i, e in enumerate(kept) if e["mut"]["kind"] == "none" and _is_r0(e, table)]
+        probe_seeds = [101 + 7 * k + seed for k in range(6 if thorough else 5)]
+        if probe_idx:
+            from concurrent.futures import ThreadPoolExecutor
+            sub = [kept[i] for i in probe_idx]
+            with ThreadPoolExecutor(max_workers=len(probe_seeds)) as ex:
+                results = list(ex.map(lambda a: other_process(sub, a[1], workdir, f"p{a[0]}"), enumerate(probe_seeds)))
+            for hs, ids in zip(probe_seeds, results):
+                for i, ident in zip(probe_idx, ids):
+                    o = obs[i]
+                    if o["ok"] and not ident.startswith("!"):
+                        o["others"].append(ident)
+                    elif o["ok"] != (not ident.startswith("!")):
+                        o["others"].append(ident)
+                run.count(("process-probe", hs), n=len(ids))
+        run.set(other_processes=len(hashseeds), hash_seed_probe_processes=len(probe_seeds), hash_seed_probe_objects=len(probe_idx),
+                pythonhashseeds=[os.environ.get("PYTHONHASHSEED")] + [str(h) for h in hashseeds] + [str(h) for h in probe_seeds])
     finally:
         shutil.rmtree(workdir, ignore_errors=True)
 
